@@ -227,7 +227,10 @@ def registry_leg(ctx):
                 stmt = selectq.bql.select_ast([(ast.Subscript(ast.Column(cn), 'filename'), 'r')], tn, limit=200)
                 run_event(conn, stmt, w2, events, ctx)
             # clauses that need hashable / orderable values, crossed with every column datatype
+            mate = next((n for n, c2 in tab.columns.items() if c2.dtype in (int, str, datetime.date) and n != cn), cn)
             for clause, mk in (('distinct', lambda: selectq.bql.select_ast([(ast.Column(cn), 'r')], tn, distinct=True, limit=200)),
+                               ('distinct-mixed', lambda: selectq.bql.select_ast([(ast.Column(mate), 'm'), (ast.Column(cn), 'r')], tn, distinct=True, limit=200)),
+                               ('distinct-mixed2', lambda: selectq.bql.select_ast([(ast.Column(cn), 'r'), (ast.Column(mate), 'm')], tn, distinct=True, limit=200)),
                                ('orderby', lambda: selectq.bql.select_ast([(ast.Column(cn), 'r')], tn, order_by=[ast.OrderBy(ast.Column(cn), ast.Ordering.ASC)], limit=200)),
                                ('groupby', lambda: selectq.bql.select_ast([(ast.Column(cn), 'r'), (ast.Function('count', [ast.Asterisk()]), 'n')], tn,
                                                                           group_by=ast.GroupBy([1], None), limit=200)),
